@@ -872,8 +872,14 @@ impl SvgElement {
         // attributes present so far don't describe where the element will end up.
         const UNRESOLVED_ATTRS: &[&str] = &[
             "xy", "cxy", "xy1", "xy2", "xy-loc", "dxy", "wh", "dwh", "dw", "dh", "rxy", "surround",
-            "inside", "start", "end",
+            "inside",
         ];
+        // `start` / `end` describe a connector only on these; elsewhere they are
+        // ordinary attributes (e.g. of SVG animation elements)
+        let connector_attrs: &[&str] = match self.name.as_str() {
+            "line" | "polyline" => &["start", "end"],
+            _ => &[],
+        };
         // The same applies to position attributes which aren't native to the shape
         // (e.g. `x2` on a circle); these are replaced when layout completes.
         let foreign_attrs: &[&str] = match self.name.as_str() {
@@ -891,6 +897,7 @@ impl SvgElement {
         };
         if let Some(attr) = UNRESOLVED_ATTRS
             .iter()
+            .chain(connector_attrs)
             .chain(foreign_attrs)
             .find(|a| self.has_attr(a))
         {
